@@ -8,7 +8,7 @@ namespace SrcPayload
 inductive DataFormat where
   | V0
   | V2
-  deriving DecidableEq, Repr
+  deriving DecidableEq, Repr, Inhabited
 def extract_payload_ff_padding (payload : Bytes) : (Rs.Res Bytes) :=
   (let ff_padding := ((payload.reverse).takeWhile (fun x => (x.toNat == 255))); (if (decide ((ff_padding.length) > 15)) then (Rs.Res.err (Rs.Str.lit true [])) else (Rs.Res.ok ff_padding)))
 
